@@ -1,24 +1,43 @@
 /-
 C18 — computations leave their arguments untouched and are repeatable: the part carried by a theorem.
 
-What is proved here is about the ownership model of `Model/C18.lean` (numpy's copy semantics are its
-axioms, the C kernels enter through their write-sets, the contents semantics is parametric in what the
-kernels compute):
+Everything proved here is about the ownership model of `Model/C18.lean`: numpy's copy semantics are its axioms,
+the C kernels enter through their write-sets, the contents semantics is parametric in what the kernels compute.
+The model is tied to the code by the recorder shim of harness/c18.py (`run`, `safe`, `mark`, `kernels` requests of
+the driver are executed and compared on every run).
 
-* generic soundness (`soundness`, `soundness_except`, `written_args_private`): a wrapper body that passes
-  the syntactic check `Safe` never hands a caller buffer to a kernel parameter that the C code writes,
-  and never writes one in place — for every program and every dtype/layout of every argument;
-* contents (`caller_contents_unchanged`): under any semantics of the kernels that respects the
-  write-sets, the caller's buffers hold the same contents after the call;
-* repeatability (`runs_independent`, `second_call_same_result`): the result of a call depends on the
-  caller's buffers only — not on what the heap held, nor on the allocator state — so a second call
-  made after a `Safe` call produces the same kernel calls and the same contents in every local;
-* one `Safe` theorem per kernel-facing wrapper of hydrodiy (a finite syntactic check, decided), and
-  for the wrappers that write a caller buffer BY DESIGN (an output parameter, receiver state) the exact
-  set of such buffers, together with the witness that the write really happens.
+CLAUSE → THEOREMS → WHAT REMAINS OUTSIDE
 
-Not proved (harness only): that the DSL terms are the wrapper bodies (recorder shim), pure-Python
-functions that never reach a kernel, and repeatability of the real code.
+1. "leave the numeric arrays, series and data frames passed to them bit-for-bit unchanged (values, dtype, shape)"
+   * kernel-facing wrappers (every site where a buffer reaches C; cross-checked against the source on every run):
+     `soundness`, `soundness_except`, `written_args_private` (every program, every dtype / layout / container of every
+     argument, every allocator state), `caller_contents_unchanged` (every kernel semantics respecting the write-sets),
+     `safe_marks_nothing` (the executable marking semantics the driver runs), and one `<wrapper>_safe` per call site
+     (29), `delineateBoundary*_safe_except_receiver`, `pointsInsidePolygonOut_safe_except_output` with the witnesses
+     `..._writes_receiver` / `..._writes_output`.  Non-vacuity: `andersonDarlingAsarray_*`, `kdePinned_*`,
+     `accumulateWritesFlowdir_*`.
+   * outside: (a) that the DSL terms are the wrapper bodies and that numpy behaves as axiomatised — shim
+     correspondence; (b) dtype / shape of the caller's OBJECT (a view-or-copy model has no notion of rebinding an
+     attribute) and every function that never reaches a kernel — snapshot oracle only.
+2. "grid arguments keep their cell values"
+   * `accumulate_safe`, `accumulateDefault_safe`, `slope_safe`, `delineateRiver_safe` with the `retype` statement
+     (the caller's grid is converted in place; the local keeps denoting the caller's cells), contents by
+     `caller_contents_unchanged`; `accumulateWritesFlowdir_writes_caller_grid` shows the flag is load-bearing.
+   * outside: Grid / Catchment methods that are pure Python — oracle only.
+3. "calling the same function twice with the same arguments, and the same random seed, returns the same result"
+   * `runs_independent` (result depends on the caller's buffers only: not on the heap, not on the allocator),
+     `second_call_same_result`, `every_call_same_result` (any number of consecutive calls),
+     `second_call_after_editing_results` (the caller may overwrite what a call returned).
+   * outside: these are statements about the model (kernels are functions of their inputs there). Randomness
+     (np.random under a seed), module-level state, caches and work buffers of the real code are observed only:
+     two-call / third-call oracle and the history streams against a pristine interpreter.
+4. quantifier "every public function … x contiguous / strided, float / integer, array / pandas x two calls"
+   * theorems quantify over all kinds (`kinds : Nat → Kind` arbitrary) and all programs; the list of public entry
+     points is an inventory read from the current source on every run (harness), not a Lean object.
+
+Weaker than the clause, stated plainly: nothing here proves a fact about Python text; `Safe` theorems are decided
+on hand-written terms whose faithfulness is a measured correspondence, and `Kind` abstracts an argument to
+(viewable, dtype, C-contiguous).
 -/
 import HydroVerif.Lemmas.C18
 namespace HydroVerif.C18
